@@ -27,6 +27,18 @@ def derive_seed(verif_seed, prop, run):
     return int.from_bytes(h[:8], "big")
 
 
+def caused_by(e, *types):
+    """is `e`, or anything in its cause/context chain, one of the harness's injected faults?  (code under test may wrap the
+    error of a dependency in an error of its own: still a loud failure)"""
+    seen = 0
+    while e is not None and seen < 12:
+        if isinstance(e, types):
+            return True
+        e = e.__cause__ or e.__context__
+        seen += 1
+    return False
+
+
 class Streams:
     """named PRNG sub-streams of one plan seed (shrinking one part does not shift another)"""
 
